@@ -186,7 +186,7 @@ func (p *anyParser) Pull() (node.Node, bool, error) {
 func RunStore() {
 	n := 4
 	if nd.Tier() > 0 {
-		n = 6
+		n = 5
 	}
 	p := &anyParser{n: n}
 	c, err := store.CreateInMemory(p)
